@@ -134,4 +134,4 @@ def check_cli(ctx, case):
 
 
 def run(ctx):
-    ctx.hyp("cli", cli_case(), check_cli, 12 if ctx.quick else 60)
+    ctx.hyp("cli", cli_case(), check_cli, 25 if ctx.quick else 80)
